@@ -227,6 +227,16 @@ def evalBlock (b : Block) : Array String := Id.run do
     match findOut b s!"surf:{u.elt}" with
     | some v => out := out.push (vline b "T" "pub-surf" u.elt (close 1e-12 1e-30 v sum) v sum)
     | none => pure ()
+    -- sites of a surface related to an EQUILIBRIUM_PHASES / KINETICS reactant: proportion × moles of the reactant
+    match b.comps.find? (·.formula == u.comp) with
+    | some c =>
+      let rel := if c.phase != "" then findOut b "equi" else if c.rate != "" then findOut b "kin" else none
+      match rel with
+      | some m =>
+        if b.state == 5 && m > b.minRel && u.moles > b.minRel then
+          out := out.push (vline b "V" "site-related" u.elt (close relTol 0.0 sum (c.prop * m)) sum (c.prop * m))
+      | none => pure ()
+    | none => pure ()
   -- potentials of a charge structure
   let cbOf (ch : String) (ty : Nat) : Option Unk := b.unks.find? (fun u => u.type == ty && u.charge == ch)
   -- 2. mass action ---------------------------------------------------------------------------------------
@@ -294,6 +304,7 @@ def evalBlock (b : Block) : Array String := Id.run do
       let q := mine.foldl (fun a sp => a + sp.z * sp.moles) 0.0
       let sigSp := sigmaOfCharge q c.area c.grams
       let qdl := b.aqs.foldl (fun a s => a + (s.g.foldl (fun a2 g => if g.1 == c.name then a2 + s.z * g.2 else a2) 0.0)) 0.0
+      let qdlAbs := b.aqs.foldl (fun a s => a + (s.g.foldl (fun a2 g => if g.1 == c.name then a2 + (s.z * g.2).abs else a2) 0.0)) 0.0
       let pubPsi := findOut b s!"psi:{c.name}"
       let pubSig := findOut b s!"sigma:{c.name}"
       let pubMu := (findOut b "mu").getD b.mu
@@ -325,7 +336,7 @@ def evalBlock (b : Block) : Array String := Id.run do
             let tot := q + qdl
             let ok := !(Row.dl c.grams tot).fails { env with tol := Surface.maxv b.tol (relTol * q.abs) }
             out := out.push (vline b "V" "dl-neutral" c.name ok qdl (-q))
-            out := out.push (vline b "T" "cb-f" c.name (close 1e-9 1e-20 cb.f tot) cb.f tot)
+            out := out.push (vline b "T" "cb-f" c.name (close 1e-9 (1e-11 * (q.abs + qdlAbs) + 1e-22) cb.f tot) cb.f tot)
             match pubSig with
             | some ps => out := out.push (vline b "T" "pub-sigma" c.name (close 1e-10 1e-22 ps sigSp) ps sigSp)
             | none => pure ()
@@ -359,7 +370,7 @@ def evalBlock (b : Block) : Array String := Id.run do
             let r2 := residCD2DL (f2 + qdl) st.sigma0 st.sigma1 c.area c.grams
             let ok := !(Row.cb c.grams r2).fails { env with tol := Surface.maxv b.tol (relTol * (f2 + (st.sigma0 + st.sigma1) * (c.area * c.grams) / F_C_MOL).abs) }
             out := out.push (vline b "V" "dl-neutral" c.name ok qdl (-(f2 + (st.sigma0 + st.sigma1) * (c.area * c.grams) / F_C_MOL)))
-            out := out.push (vline b "T" "cd-f2" c.name (close 1e-9 1e-20 u2.f (f2 + qdl)) u2.f (f2 + qdl))
+            out := out.push (vline b "T" "cd-f2" c.name (close 1e-9 (1e-11 * (f2.abs + qdlAbs) + 1e-22) u2.f (f2 + qdl)) u2.f (f2 + qdl))
           match pubPsi with
           | some v => out := out.push (vline b "T" "pub-psi" c.name (close 1e-13 1e-18 v psi0) v psi0)
           | none => pure ()
